@@ -162,6 +162,17 @@ def directed():
             for fv, lg in ((10, [B(0, 5, [0, 1, 2, 3, 4, 5]), B(6, 7, [6, 7])]), (2, [B(o, o, [o], "v1") for o in range(7)])):
                 out.append({"id": "D-slow-consumer-q%d-%d-v%d" % (qc, ms, fv), "log": lg, "logStart": 0, "start": -2, "qcap": qc, "fetchVersion": fv,
                             "maxBytes": 1 << 20, "steps": [{"op": "fetch", "n": 1}, {"op": "sleep", "ms": ms}, {"op": "fetch", "n": 2}, {"op": "sleep", "ms": ms}] + drain})
+    # SetOffset to the position the Reader started from, right after the first message (and after a few): delivery restarts there
+    for start in (-2, 3):
+        for n in (1, 2, 4):
+            out.append({"id": "D-rewind-s%d-n%d" % (start, n), "log": L1 + [B(6, 8, [6, 7, 8])], "logStart": 0, "start": start, "qcap": 1, "fetchVersion": 10,
+                        "maxBytes": 1 << 20, "steps": [{"op": "fetch", "n": n}, {"op": "sleep", "ms": 20}, {"op": "setoffset", "o": start}] + drain})
+    # a response that ends inside the 61-byte header of a later batch, at every field boundary of that header
+    for extra in (1, 8, 12, 20, 26, 27, 31, 40, 52, 60, 61, 70):
+        for k in (1, 2):
+            out.append({"id": "D-cut-in-header-b%d-x%d" % (k, extra), "log": L1 + [B(6, 8, [6, 7, 8]), B(9, 9, [9])], "logStart": 0, "start": -2, "qcap": 100,
+                        "fetchVersion": 10, "maxBytes": 1 << 20,
+                        "steps": [{"op": "fault", "fault": {"kind": "trunc", "batches": k, "records": 0, "extra": extra}}] + drain})
     # leader migration and NotLeaderForPartition
     out.append({"id": "D-leader-move", "log": L1, "logStart": 0, "start": -2, "qcap": 1, "fetchVersion": 10, "maxBytes": 1 << 20,
                 "steps": [{"op": "fetch", "n": 2}, {"op": "moveleader", "to": 2}] + drain})
